@@ -160,8 +160,12 @@ def twins(chk, hscan, K):
         text = rulegen.rand_text(r, 3, 8).replace(b"\0", b"a")
         off = r.below(12)
         other = r.below(12)
-        buf = bytearray(r.bytes(24))
+        buf = bytearray(r.bytes(40))
         buf[off:off + len(text)] = text
+        o2 = off + len(text) + r.range(0, 3)
+        if r.chance(1, 4):
+            o2 = 0 if off >= 5 else o2
+        buf[o2:o2 + 5] = b"S1S1#"
         buf = bytes(buf)
         n_of = r.below(3)
         src = ('rule at_ext { strings: $a = "%s" condition: $a at ext }\n'
@@ -186,17 +190,26 @@ def twins(chk, hscan, K):
         bv = max(0, min(bv, 2 ** 63 - 1))
         src += ('rule big_eq { condition: big == %d }\nrule big_le { condition: big <= %d and %d <= big }\n'
                 'rule big_shr { condition: (%d >> 32) == (big >> 32) and (%d & 0xFFFFFFFF) == (big & 0xFFFFFFFF) }\n') % (bv, bv, bv, bv, bv)
+        # a string pinned with `at <constant>` and, later in the same condition, the anonymous `$ at <other offset>` of a loop over a set that
+        # does not contain it: literal offsets vs externals vs swapped operands vs forced evaluation (all hold on this buffer)
+        et = rulegen.yara_escape(text)
+        src += ('rule fixat_lit { strings: $hdr = "%s" $s1 = "S1S1#" $s2 = "nope77" condition: $hdr at %d and for any of ($s*) : ($ at %d) }\n'
+                'rule fixat_ext { strings: $hdr = "%s" $s1 = "S1S1#" $s2 = "nope77" condition: $hdr at ext and for any of ($s*) : ($ at ext2) }\n'
+                'rule fixat_swap { strings: $hdr = "%s" $s1 = "S1S1#" $s2 = "nope77" condition: for any of ($s*) : ($ at %d) and $hdr at %d }\n'
+                'rule fixat_forced { strings: $hdr = "%s" $s1 = "S1S1#" $s2 = "nope77" condition: ($hdr at %d and for any of ($s*) : ($ at %d)) or filesize < 0 }\n'
+                'rule fixat_expr { strings: $hdr = "%s" $s1 = "S1S1#" $s2 = "nope77" condition: $hdr at %d and for any of ($s*) : ($ at (filesize - filesize + %d)) }\n'
+                ) % (et, off, o2, et, et, o2, off, et, off, o2, et, off, o2)
         s = hx(src.encode())
         # A: compiled with the final values
-        cases.append(("A%d" % i, ["newcompiler", "defi ext %d" % off, "defi nof %d" % n_of, "defi big %d" % bv, "add " + s, "getrules",
+        cases.append(("A%d" % i, ["newcompiler", "defi ext %d" % off, "defi nof %d" % n_of, "defi big %d" % bv, "defi ext2 %d" % o2, "add " + s, "getrules",
                                   "scanner 0", "scan " + hx(buf), "sflags %d" % K["SCAN_FLAGS_FAST_MODE"], "scan " + hx(buf)]))
         # B: compiled with other values, redefined at rules level
-        cases.append(("B%d" % i, ["newcompiler", "defi ext %d" % other, "defi nof %d" % ((n_of + 1) % 3), "defi big 7", "add " + s, "getrules",
-                                  "rdefi ext %d" % off, "rdefi nof %d" % n_of, "rdefi big %d" % bv, "scanner 0", "scan " + hx(buf)]))
+        cases.append(("B%d" % i, ["newcompiler", "defi ext %d" % other, "defi nof %d" % ((n_of + 1) % 3), "defi big 7", "defi ext2 %d" % ((o2 + 1) % 30), "add " + s, "getrules",
+                                  "rdefi ext2 %d" % o2, "rdefi ext %d" % off, "rdefi nof %d" % n_of, "rdefi big %d" % bv, "scanner 0", "scan " + hx(buf)]))
         # C: redefined at scanner level, after a save/load round trip
-        cases.append(("C%d" % i, ["newcompiler", "defi ext %d" % other, "defi nof %d" % ((n_of + 2) % 3), "defi big 9", "add " + s, "getrules",
-                                  "reload", "use loaded", "scanner 0", "sdefi ext %d" % off, "sdefi nof %d" % n_of, "sdefi big %d" % bv, "scan " + hx(buf)]))
-        meta[i] = {"text": text.hex(), "off": off, "other": other, "nof": n_of, "buf": buf.hex(), "rules": src, "big": bv}
+        cases.append(("C%d" % i, ["newcompiler", "defi ext %d" % other, "defi nof %d" % ((n_of + 2) % 3), "defi big 9", "defi ext2 %d" % ((o2 + 2) % 30), "add " + s, "getrules",
+                                  "reload", "use loaded", "scanner 0", "sdefi ext2 %d" % o2, "sdefi ext %d" % off, "sdefi nof %d" % n_of, "sdefi big %d" % bv, "scan " + hx(buf)]))
+        meta[i] = {"text": text.hex(), "off": off, "other": other, "nof": n_of, "buf": buf.hex(), "rules": src, "big": bv, "o2": o2}
     out, err = vlib.run_cases(hscan, cases, timeout=1800, jobs=16)
 
     def verdicts(line):
@@ -228,6 +241,9 @@ def twins(chk, hscan, K):
         elif len(set(x in va for x in ("of_none", "of_none_c", "of_none_e"))) != 1:
             chk.violation("required-strings", "`N of them` with N = %d given as an external / an expression / a literal, none of the strings in the data: "
                           "verdicts differ: %s" % (meta[i]["nof"], [x for x in ("of_none", "of_none_c", "of_none_e") if x in va]), rep)
+        elif not all(x in va for x in ("fixat_lit", "fixat_ext", "fixat_swap", "fixat_forced", "fixat_expr")):
+            chk.violation("fixed-offset-overwritten", "`$hdr at %d and for any of ($s*) : ($ at %d)` holds on the data, but of its five spellings (literal, externals, "
+                          "swapped operands, forced evaluation, expression offset) only %s match" % (meta[i]["off"], meta[i]["o2"], [x for x in va if x.startswith("fixat")]), rep)
         elif "at_ext" not in va or "plain" not in va:
             chk.violation("twin-expect", "planted string at offset ext not reported: %s" % va, rep)
         else:
